@@ -21,6 +21,10 @@ SPEC = {
          "cases": {"quick": 6400, "thorough": 320000}, "budget": 10, "max_restarts": _MAXR},
         {"name": "heap", "harness": "c01_decoder_fuzz", "srcs": SRCS, "flavour": "plain", "mode": "heap", "heap": True,
          "cases": {"quick": 640, "thorough": 16000}, "budget": 20},
+        # the same fuzz cases under valgrind memcheck: uninitialised values reaching a branch, an address or a
+        # system call (MemorySanitizer is unusable here: libpng/zlib/iconv are not instrumented)
+        {"name": "memcheck", "harness": "c01_decoder_fuzz", "srcs": SRCS, "flavour": "plain", "mode": "fuzz", "valgrind": True,
+         "cases": {"quick": 160, "thorough": 6400}, "budget": 600},
     ],
     "min_distinct": 50,
     "min_counters": {
